@@ -107,7 +107,8 @@ def check(col, prog, tier, profile, fixture=None):
         Is = R.A(sb)
         # a skeleton shared by both splits is judged once per public entry, under that entry's name
         kb_ = fk(R.pub[nm_]) if R.shared_split else fk(sb)
-        root = ("param", 1, Is.names.get(1))
+        RP = R.shape[sb.key]["root"]   # the tree parameter, whatever its position (c03._split_shape)
+        root = ("param", RP + 1, Is.names.get(RP + 1))
         for st in Is.final_states:
             evs = st.event_list()
             rec = [e for e in evs if c03.is_call_to(e, sb)]
@@ -115,8 +116,8 @@ def check(col, prog, tier, profile, fixture=None):
                 continue
             e = rec[0]
             ret = util.ret_term(st)
-            a0 = e.args[0]
-            ok = ret[0] == "agg" and ret[1] == "tuple" and root in ret[2]
+            a0 = e.args[RP]
+            ok = ret[0] == "agg" and len(ret[2]) == 2 and root in ret[2]   # a pair or the worker's own two-part result
             # the recursion is on a child of root and only its results are stored below root
             ok = ok and a0[0] == "load" and c03.child_field_of(a0[2], R) is not None
             stores = [x for x in evs if x.kind == "store" and c03.child_field_of(x.place, R)]
@@ -388,13 +389,31 @@ def _provenance(col, prog, crate, R):
                         if (t["fn"].get("resolved") or t["fn"]).get("path") == ct[1]:
                             tgt = prog.by_key.get((t["fn"].get("resolved") or t["fn"]).get("def"))
                     if tgt is None:
+                        # `RNG.with(|cell| ..)` written in place: the closure handed to the std accessor is the source
+                        for a_ in ct[2]:
+                            if isinstance(a_, tuple) and a_ and a_[0] == "agg" and isinstance(a_[1], tuple) and a_[1] and a_[1][0] == "closure":
+                                tgt = prog.by_key.get(a_[1][1]) or tgt
+                    if tgt is None:
                         why = "priority comes from %s, which is not an analysed function" % ct[1]
                         continue
-                    reach, ext = util.reachable_calls(prog, [tgt])
+                    roots_ = [tgt]
+                    for a_ in ct[2]:
+                        # a function handed over by name (`with_rng(next_priority)`) runs as part of the callee
+                        if isinstance(a_, tuple) and a_ and a_[0] == "fnitem":
+                            for x_ in a_[1:]:
+                                cb_ = (prog.by_key.get(x_) or crate.body(x_)) if isinstance(x_, str) else None
+                                if cb_ is not None:
+                                    roots_.append(cb_)
+                    reach, ext = util.reachable_calls(prog, roots_)
                     draws = [x for x in reach.values() if x.name == "next_raw" and x.crate.name.startswith(("rlib_rand", "rand")) or (x.name == "next_raw")]
                     if draws:
                         ok = True
                         gens.append(tgt)
+                        if len(roots_) > 1:
+                            # the functions handed over by name are the generators proper; the callee that runs them
+                            # (`with_rng(f)`: load the state, run f on it, store it back) is plumbing
+                            gens.extend(roots_[1:])
+                            PLUMBING.add(tgt.key)
                         why = "%s -> ... -> %s" % (tgt.path, draws[0].path)
                     else:
                         why = "priority comes from %s whose call graph never reaches the generator's next_raw" % tgt.path
@@ -409,6 +428,7 @@ def _provenance(col, prog, crate, R):
     return gens
 
 
+PLUMBING = set()   # higher-order functions that run a generator function handed to them by name
 CONSTS = {}  # call-result terms with a known constant value (size_of::<T>() ...), filled per analysed body
 
 
@@ -477,6 +497,15 @@ def _entropy_bits(t, draw_pred, memo=None):
         bs = [_entropy_bits(x, draw_pred) for x in t[2:4]]
         bs = [x for x in bs if x is not None]
         return max(bs) if bs else None
+    if h == "call" and str(t[1]).rsplit("::", 1)[-1] in ("rotate_left", "rotate_right"):
+        # a rotation keeps the bits of the rotated value; the count contributes its low log2(width) bits at most
+        # (`rot.rotate_right(x)` with a 5-bit `rot` yields 32 shifted copies of 32 values, whatever `x` holds)
+        args = [x for x in t[2] if isinstance(x, tuple) and x and x[0] != "mem"]
+        if len(args) == 2:
+            bx, bn = _entropy_bits(args[0], draw_pred), _entropy_bits(args[1], draw_pred)
+            if bx is None and bn is None:
+                return None
+            return (bx or 0) + min(bn or 0, 6)
     if h == "call":
         bs = [_entropy_bits(x, draw_pred) for x in t[2] if isinstance(x, tuple)]
         bs = [x for x in bs if x is not None]
@@ -511,7 +540,7 @@ def rule_h3b(col, prog, crate, R, gens):
         memo[b.key] = None
         if depth > 6:
             return None
-        I = util.analyse(b)
+        I = util.analyser(util.private_type_helpers(crate))(b)   # (`step(rng) -> Draw { priority, next }` is read in its caller)
         worst = None
         site = None
         for st in I.final_states:
@@ -562,7 +591,9 @@ def rule_h3b(col, prog, crate, R, gens):
         rty = g.locals[0]["ty"]
         w = {"u8": 8, "u16": 16, "u32": 32, "u64": 64, "usize": 64}.get(rty, width)
         key = "%s|priority-entropy" % fk(g)
-        if bits is None:
+        if bits is None and g.key in PLUMBING and any(fn_bits(o_) is not None for o_ in gens if o_.key != g.key):
+            col.ok("H3", g.loc(), key, "%s runs the generator function it is handed; the draw itself is judged there" % g.path, nontrivial=False)
+        elif bits is None:
             col.violation("H3", key, g.loc(), "cannot follow the generator output to the value %s returns" % g.path)
         elif bits >= w:
             col.ok("H3", g.loc(), key, "the returned priority keeps %d generator bits (type holds %d)" % (bits, w))
@@ -579,19 +610,27 @@ def rule_h4(col, prog, rid, crate=None, draw_fns=None, sole_writer=False):
     # bodies (incl. closures) reachable from the draw function(s) that call next_raw
     if draw_fns is None:
         R = c03.roles(crate)
-        draw_fns = []
+        draw_fns = [R.new] + list(crate.closures_of(R.new))   # the draw may be written in the constructor itself
         for bbx, t in R.new.calls():
             tgt = prog.by_key.get((t["fn"].get("resolved") or t["fn"]).get("def"))
             if tgt is not None:
                 draw_fns.append(tgt)
     reach, ext = util.reachable_calls(prog, draw_fns)
+    carriers = util.private_type_helpers(crate)
+    carrier_keys = {c_.key for c_ in carriers}
     sites = 0
     accepted = set()   # (body key, bb) of write-backs that belong to a draw
     cell_tys = set()
     for b in reach.values():
         if b.crate.name != crate.name:
             continue
-        I = util.analyse(b)
+        if b.key in carrier_keys and any(util.callee_key(t_) == b.key for x_ in reach.values() if x_.key != b.key for _bb, t_ in x_.calls()):
+            continue   # a step function of a private carrier type (`step(rng) -> Draw { priority, next }`): judged inlined in its callers
+        if util.is_readonly_check(crate, b, cell_reads=True):
+            # a checker that steps COPIES of the generator to compare them (returns nothing, takes nothing by &mut, writes
+            # no cell): what it draws cannot become a priority nor move the persistent state
+            continue
+        I = util.analyser(carriers)(b) if carriers else util.analyse(b)
         for st in I.final_states:
             evs = [e for e in st.event_list() if e.kind == "call"]
             for i, e in enumerate(evs):
@@ -618,7 +657,7 @@ def rule_h4(col, prog, rid, crate=None, draw_fns=None, sole_writer=False):
                 sets = [x for x in evs[i + 1 :] if x.extra.get("name") in ("set", "replace") and "Cell" in x.callee]
                 cur = e.extra["argvals"][0]
                 gets = [g for g in gets if g.res == cur]
-                out_val = ("out", e.bb, l)
+                out_val = ("out", e.extra.get("uid", e.bb), l)   # (inlined calls carry (call site, block) as their id)
                 wb = [x for x in sets if x.args[1] == out_val and gets and x.args[0] == gets[-1].args[0]]
                 if gets and wb:
                     for x in wb:
